@@ -2,6 +2,7 @@
 harnesses, and leaves counters / classes / violations in the Ctx (engine/core.py)."""
 import os
 from . import core
+from . import abi
 from .core import asan_flags, msan_flags, NCPU, VERIF, REPO
 
 REPLAY = {}
@@ -35,19 +36,26 @@ def build_set(ctx, names):
             out.append({"tag": n, "lib": ctx.lib(n, "clang", fl), "cc": "clang", "hflags": fl})
         else:
             # "gcc-O2" or "gcc-O3+march=native+funsigned-char": extra flags after '+'
-            base, *extra = n.split("+")
+            # "...@nobzero": config.h without HAVE_EXPLICIT_BZERO (tinyjambu_clean's volatile-loop fallback)
+            n0, _, cfgname = n.partition("@")
+            base, *extra = n0.split("+")
             cc, opt = base.split("-", 1)
             hfl = ["-O2", "-flto"] + (["-fuse-ld=lld"] if cc == "clang" else []) if "flto" in extra else []
-            out.append({"tag": n, "lib": ctx.lib(n.replace("=", "_"), cc, ["-" + opt] + ["-" + e for e in extra]), "cc": cc, "hflags": hfl})
+            cfg = None
+            if cfgname == "nobzero":
+                cfg = ctx.make_config("fallback", [m for m in BASE_CFG if m != "HAVE_EXPLICIT_BZERO"] + ["HAVE_GETRANDOM"])
+            out.append({"tag": n, "lib": ctx.lib(n.replace("=", "_"), cc, ["-" + opt] + ["-" + e for e in extra], cfg=cfg), "cc": cc, "hflags": hfl})
     return out
 
 
 MATRIX = ["gcc-O0", "gcc-O1", "gcc-O2", "gcc-O3", "gcc-Os", "clang-O0", "clang-O1", "clang-O2", "clang-O3", "clang-Os"]
 # code-generation variants beyond the optimisation level: wide vector units, the other signedness of plain char
-MATRIX_X = ["gcc-O3+march=native", "clang-O3+march=native", "gcc-O2+funsigned-char", "clang-O2+funsigned-char", "gcc-O2+fwrapv+fno-strict-aliasing",
+MATRIX_X = ["gcc-O2+D__BIG_ENDIAN__@nobzero", "clang-O2+D__BIG_ENDIAN__@nobzero",   # the byte-order-neutral code paths and the volatile-loop wipe
+            "gcc-O3+march=native", "clang-O3+march=native", "gcc-O2+funsigned-char", "clang-O2+funsigned-char", "gcc-O2+fwrapv+fno-strict-aliasing",
             "gcc-O2+std=c99+w", "clang-O2+std=c99+w",        # strict ISO C language mode (CMAKE_C_EXTENSIONS=OFF)
             "gcc-O2+flto+ffat-lto-objects", "clang-O2+flto",   # whole-program optimisation across the library's translation units
-            "gcc-O3+DNDEBUG", "clang-O3+DNDEBUG"]              # CMake's stock Release flags: assert() compiled out
+            "gcc-O3+DNDEBUG", "clang-O3+DNDEBUG",              # CMake's stock Release flags: assert() compiled out
+            "gcc-O2+DTINYJAMBU_FORCE_C32", "clang-O2+DTINYJAMBU_FORCE_C32"]   # the project's own cmake option BACKEND_C32=ON
 
 
 def batch_jobs(ctx, exe, tag, args, nb):
@@ -105,12 +113,14 @@ def c01(ctx):
     load_replay(ctx)
     ctx.model_selfcheck()
     W, R, NL = ctx.q((24, 4, 12), (70, 16, 120))
-    builds = build_set(ctx, ctx.q(["prod", "gcc-O2", "clang-O2", "asan-gcc"], ["prod"] + MATRIX + ["asan-gcc", "asan-clang"]))
+    builds = build_set(ctx, ctx.q(["prod", "gcc-O2", "clang-O2", "gcc-Os", "gcc-O2+D__BIG_ENDIAN__@nobzero", "asan-gcc"], ["prod"] + MATRIX + MATRIX_X + ["asan-gcc", "asan-clang"]))
     run_harness_on(ctx, "h_aead.c", builds, ["--mode", "rt", "--p1", W, "--p2", R, "--p3", NL], ctx.q(6, 16))
     if ctx.thorough:
         # lengths >= 2^32: a 2^32+5 byte message encrypted and decrypted in place, each key size (exact round-trip oracle)
         run_harness_on(ctx, "h_aead.c", build_set(ctx, ["prod"]), ["--mode", "rt,hugemsg"], 3, hname="h_aead-huge", timeout=5000)
-    ctx.rule = AEAD_RULE + " Long cases: fixed lengths {65535..65539, 128 KiB+2, 256 KiB, 256 KiB+5, 1 MiB+1} for every variant + random; thorough also 2^32+5 bytes in place. Battery: encrypt -> length check -> decrypt (separate and in-place) -> compare; in-place encrypt == out-of-place."
+    abi.ilp32_monitor(ctx, ['aead'])
+    ctx.rule = AEAD_RULE + " Long cases: fixed lengths {65535..65539, 128 KiB+2, 256 KiB, 256 KiB+5, 1 MiB+1} for every variant + random; thorough also 2^32+5 and 2^31+3 bytes in place. Battery: encrypt -> length check -> decrypt (separate and in-place) -> compare; in-place encrypt == out-of-place."
+    ctx.rule += ' Supplementary ILP32 monitor: the portable sources compiled with gcc/clang -m32 (4-byte size_t, pointers and long; freestanding runtime, every buffer against a PROT_NONE page) and the production archive run the same deterministic case list (harness/h_abi.c, section aead) as the model; the outputs are compared line by line.'
     ctx.exhaustive = False
     ctx.assumptions += ["overlapping-but-not-identical buffers are outside the contract and never generated",
                         "contents and lengths above the window are sampled"]
@@ -123,7 +133,7 @@ def c02(ctx):
     load_replay(ctx)
     ctx.model_selfcheck()
     W, R, NL = ctx.q((32, 4, 16), (70, 12, 150))
-    builds = build_set(ctx, ctx.q(["prod", "gcc-O0", "gcc-O2", "clang-O2", "clang-O3", "gcc-O2+funsigned-char", "asan-gcc"],
+    builds = build_set(ctx, ctx.q(["prod", "gcc-O0", "gcc-O2", "gcc-Os", "clang-O2", "clang-O3", "clang-Os", "gcc-O2+funsigned-char", "gcc-O3+DNDEBUG+DTINYJAMBU_FORCE_C32", "gcc-O2+D__BIG_ENDIAN__@nobzero", "asan-gcc"],
                                   ["prod"] + MATRIX + MATRIX_X + ["asan-gcc", "asan-clang"]))
     # same seed and same case list for every build: build-independence = all of them equal the model
     run_harness_on(ctx, "h_aead.c", builds, ["--mode", "model", "--p1", W, "--p2", R, "--p3", NL], ctx.q(4, 16))
@@ -134,8 +144,10 @@ def c02(ctx):
     if ctx.thorough:
         # AD of 2^32+7 bytes for all six variants: relational oracle against length truncation / ignored bytes
         run_harness_on(ctx, "h_aead.c", build_set(ctx, ["prod"]), ["--mode", "model,hugead"], 6, hname="h_aead-huge", timeout=5000)
+    abi.ilp32_monitor(ctx, ['aead'])
     ctx.rule = AEAD_RULE + (" Oracle: bit-serial NLFSR model written from the specification (pinned to KATs); every case: library "
                             "ciphertext||tag == model, a second encryption is identical, the model's packet (foreign encryptor) opens to the model's plaintext.")
+    ctx.rule += ' Supplementary ILP32 monitor: the portable sources compiled with gcc/clang -m32 (4-byte size_t, pointers and long; freestanding runtime, every buffer against a PROT_NONE page) and the production archive run the same deterministic case list (harness/h_abi.c, section aead) as the model; the outputs are compared line by line.'
     ctx.exhaustive = False
     ctx.assumptions += ["a deviation keyed to one specific 32-bit word value would need ~2^32 samples",
                         "the model itself is anchored only by the pinned KAT vectors (bytes < 0x21, lengths <= 32) and by being a literal transcription of the specification"]
@@ -148,15 +160,17 @@ def c03(ctx):
     load_replay(ctx)
     ctx.model_selfcheck()
     W, R, NL = ctx.q((14, 1, 6), (40, 2, 40))
-    builds = build_set(ctx, ctx.q(["prod", "asan-gcc"], ["prod", "gcc-O2", "clang-O3", "asan-gcc", "asan-clang"]))
+    builds = build_set(ctx, ctx.q(["prod", "clang-O2", "gcc-O2+D__BIG_ENDIAN__@nobzero", "asan-gcc"], ["prod", "gcc-O2", "gcc-Os", "clang-O2", "clang-O3", "gcc-O2+D__BIG_ENDIAN__@nobzero", "gcc-O3+DNDEBUG+DTINYJAMBU_FORCE_C32", "asan-gcc", "asan-clang"]))
     run_harness_on(ctx, "h_aead.c", builds, ["--mode", "tamper", "--p1", W, "--p2", R, "--p3", NL], 16, timeout=3000)
     if ctx.thorough:
         # AD extended / truncated by exactly 2^32 bytes must be rejected (a 32-bit length somewhere would accept it)
         run_harness_on(ctx, "h_aead.c", build_set(ctx, ["prod"]), ["--mode", "tamper,hugetamper"], 3, hname="h_aead-huge", timeout=5000)
+    abi.ilp32_monitor(ctx, ['aead'])
     ctx.rule = AEAD_RULE + (" Per packet: valid, forged-valid (random body + model tag must be ACCEPTED), 64 tag bit flips, every "
                             "non-zero XOR delta in every tag byte, cancellation patterns (XOR-fold / additive / reversed / rotated / complemented-but-one), "
                             "bit flips in body / AD / nonce / key, truncation, extension, AD-message boundary shifts by 1..4, AD-body swap, clen 0..7; "
                             "expected verdict is exact: accept iff received tag == model tag for the model-recovered plaintext.")
+    ctx.rule += ' Supplementary ILP32 monitor: the portable sources compiled with gcc/clang -m32 (4-byte size_t, pointers and long; freestanding runtime, every buffer against a PROT_NONE page) and the production archive run the same deterministic case list (harness/h_abi.c, section aead) as the model; the outputs are compared line by line.'
     ctx.exhaustive = False
     ctx.assumptions += ["2^64-1 wrong tags per packet are sampled structurally, not enumerated"]
 
@@ -168,14 +182,16 @@ def c04(ctx):
     load_replay(ctx)
     ctx.model_selfcheck()
     W, R, NL = ctx.q((20, 1, 40), (70, 3, 300))
-    builds = build_set(ctx, ctx.q(["prod", "gcc-O2", "asan-gcc"], ["prod", "gcc-O2", "gcc-O3", "clang-O2", "clang-O3", "asan-gcc", "asan-clang"]))
+    builds = build_set(ctx, ctx.q(["prod", "gcc-O2", "clang-O2", "gcc-O2+D__BIG_ENDIAN__@nobzero", "asan-gcc"], ["prod", "gcc-O2", "gcc-O3", "gcc-Os", "clang-O2", "clang-O3", "gcc-O2+D__BIG_ENDIAN__@nobzero", "gcc-O3+DNDEBUG+DTINYJAMBU_FORCE_C32", "asan-gcc", "asan-clang"]))
     run_harness_on(ctx, "h_aead.c", builds, ["--mode", "zero,both", "--p1", W, "--p2", R, "--p3", NL], 16, timeout=3000)
     # dense length sweep 0..300 on the production object: one tag flip per length per variant
     run_harness_on(ctx, "h_aead.c", build_set(ctx, ["prod"]), ["--mode", "zero,both,sweep", "--p1", 0, "--p2", 1, "--p3", ctx.q(300, 4000)], 8,
                    hname="h_aead-sweep")
+    abi.ilp32_monitor(ctx, ['aead', 'siv'])
     ctx.rule = AEAD_RULE + (" All 6 variants; per packet up to 12 tamper sites (each tag byte, body, nonce, key, AD length), in place and "
                             "out of place, output region pre-filled with recorded non-zero junk; after every rejection every byte of "
                             "m[0..clen-8) is read back and must be zero; long packets up to 1 MiB (thorough: 16 MiB).")
+    ctx.rule += ' Supplementary ILP32 monitor: the portable sources compiled with gcc/clang -m32 (4-byte size_t, pointers and long; freestanding runtime, every buffer against a PROT_NONE page) and the production archive run the same deterministic case list (harness/h_abi.c, section aead/siv) as the model; the outputs are compared line by line.'
     ctx.exhaustive = False
 
 
@@ -186,16 +202,20 @@ def c08(ctx):
     load_replay(ctx)
     ctx.model_selfcheck()
     W, R, NL = ctx.q((24, 2, 12), (70, 8, 100))
-    builds = build_set(ctx, ctx.q(["prod", "gcc-O2", "clang-O2", "asan-gcc"], ["prod"] + MATRIX + ["asan-gcc", "asan-clang"]))
+    builds = build_set(ctx, ctx.q(["prod", "gcc-O2", "clang-O2", "gcc-Os", "gcc-O2+D__BIG_ENDIAN__@nobzero", "asan-gcc"], ["prod"] + MATRIX + MATRIX_X + ["asan-gcc", "asan-clang"]))
     run_harness_on(ctx, "h_aead.c", builds, ["--mode", "rt,siv", "--p1", W, "--p2", R, "--p3", NL], ctx.q(6, 16))
     W2, R2, NL2 = ctx.q((10, 1, 4), (28, 1, 30))
-    builds2 = build_set(ctx, ctx.q(["prod", "asan-gcc"], ["prod", "clang-O3", "asan-gcc", "asan-clang"]))
+    builds2 = build_set(ctx, ctx.q(["prod", "clang-O2", "gcc-O2+D__BIG_ENDIAN__@nobzero", "asan-gcc"], ["prod", "clang-O2", "clang-O3", "gcc-Os", "gcc-O2+D__BIG_ENDIAN__@nobzero", "gcc-O3+DNDEBUG+DTINYJAMBU_FORCE_C32", "asan-gcc", "asan-clang"]))
     run_harness_on(ctx, "h_aead.c", builds2, ["--mode", "tamper,siv", "--p1", W2, "--p2", R2, "--p3", NL2], 16, hname="h_aead-t", timeout=3000)
     if ctx.thorough:
         run_harness_on(ctx, "h_aead.c", build_set(ctx, ["prod"]), ["--mode", "tamper,siv,hugetamper"], 3, hname="h_aead-huge", timeout=5000)
+        # SIV round trip of 2^32+5 and 2^31+3 byte messages in place (two passes each way: ~5 minutes per case)
+        run_harness_on(ctx, "h_aead.c", build_set(ctx, ["prod"]), ["--mode", "rt,siv,hugemsg"], 3, hname="h_aead-huge", timeout=6000)
+    abi.ilp32_monitor(ctx, ['siv'])
     ctx.rule = AEAD_RULE + (" SIV variants. Round-trip battery (incl. in place) + tamper battery where every expected verdict comes from "
                             "the model of the SIV construction for arbitrary bodies and tags (a changed tag changes keystream and expected tag), "
                             "nonce bytes 0..3 and 4..11 flipped separately, clen 0..7.")
+    ctx.rule += ' Supplementary ILP32 monitor: the portable sources compiled with gcc/clang -m32 (4-byte size_t, pointers and long; freestanding runtime, every buffer against a PROT_NONE page) and the production archive run the same deterministic case list (harness/h_abi.c, section siv) as the model; the outputs are compared line by line.'
     ctx.exhaustive = False
 
 
@@ -206,7 +226,7 @@ def c09(ctx):
     load_replay(ctx)
     ctx.model_selfcheck()
     W, R, NL = ctx.q((32, 3, 16), (70, 10, 150))
-    builds = build_set(ctx, ctx.q(["prod", "gcc-O2", "clang-O3", "asan-gcc"], ["prod"] + MATRIX + MATRIX_X + ["asan-gcc", "asan-clang"]))
+    builds = build_set(ctx, ctx.q(["prod", "gcc-O2", "clang-O3", "gcc-Os", "gcc-O2+D__BIG_ENDIAN__@nobzero", "gcc-O3+DNDEBUG+DTINYJAMBU_FORCE_C32", "asan-gcc"], ["prod"] + MATRIX + MATRIX_X + ["asan-gcc", "asan-clang"]))
     run_harness_on(ctx, "h_aead.c", builds, ["--mode", "model,pairs,siv", "--p1", W, "--p2", R, "--p3", NL], ctx.q(4, 16))
     # positive control: the same pair generator through plain AEAD must show related bodies
     run_harness_on(ctx, "h_aead.c", build_set(ctx, ["prod"]), ["--mode", "pairs", "--p1", W, "--p2", 1, "--p3", 0], 2, hname="h_aead-ctl")
@@ -215,9 +235,11 @@ def c09(ctx):
     if not ctx.replay and ctx.stats.get("siv_reuse_pairs", 0) < 200:
         ctx.inconclusive.append("too few SIV nonce-reuse pairs observed")
     sivref_second_opinion(ctx)
+    abi.ilp32_monitor(ctx, ['siv'])
     ctx.rule = AEAD_RULE + (" SIV variants vs the model of the README two-pass construction (both directions, determinism), plus nonce-reuse pairs "
                             "(one bit / one byte / suffix of the message, one bit of the AD; mlen >= 8): tags differ and body1^body2 != m1^m2; "
                             "positive control: the same pairs through plain AEAD are related on the common prefix.")
+    ctx.rule += ' Supplementary ILP32 monitor: the portable sources compiled with gcc/clang -m32 (4-byte size_t, pointers and long; freestanding runtime, every buffer against a PROT_NONE page) and the production archive run the same deterministic case list (harness/h_abi.c, section siv) as the model; the outputs are compared line by line.'
     ctx.exhaustive = False
     ctx.assumptions += ["pair relations can coincide by chance with probability <= 2^-64 per pair"]
 
@@ -344,16 +366,18 @@ def c10(ctx):
     load_replay(ctx)
     ctx.model_selfcheck()
     N, reps, NL = ctx.q((200, 1, 24), (1500, 6, 400))
-    builds = build_set(ctx, ctx.q(["prod", "gcc-O0", "gcc-O2", "clang-O2", "clang-O3", "gcc-O3+DNDEBUG", "asan-gcc", "msan"],
+    builds = build_set(ctx, ctx.q(["prod", "gcc-O0", "gcc-O2", "clang-O2", "clang-O3", "gcc-O3+DNDEBUG+DTINYJAMBU_FORCE_C32", "gcc-O2+D__BIG_ENDIAN__@nobzero", "asan-gcc", "msan"],
                                   ["prod"] + MATRIX + MATRIX_X + ["asan-gcc", "asan-clang", "msan"]))
     run_hash(ctx, builds, ["--mode", "hash", "--p1", N, "--p2", reps, "--p3", NL], ctx.q(4, 16), "h_hash")
     if ctx.thorough:
         run_hash_huge(ctx, builds[0], [0, 2])
     byte_order_census(ctx)
+    abi.ilp32_monitor(ctx, ['hash'])
     ctx.rule = ("every length 0..N x 6 byte classes (x repetitions), placement (end-guard/start-guard/mid+canary) and alignment offset 0..7 "
                 "rotating with the index, NULL for length 0 in half of the cases; random long lengths (to 64 KiB; thorough: one 4 MiB message, and single calls of 2^32+37 bytes judged against the same bytes fed in pieces below 2^32); "
                 "same case list on every build. class = (length | long bucket, byte class, placement, offset). Oracle: model of the README MDPH "
                 "construction over the bit-serial TinyJAMBU-256 NLFSR; tools/hashref compiled as is as second opinion. Supplementary census: the header's byte-order decision evaluated by the preprocessor under the predefined macros of 12 big-endian and 10 little-endian clang targets.")
+    ctx.rule += ' Supplementary ILP32 monitor: the portable sources compiled with gcc/clang -m32 (4-byte size_t, pointers and long; freestanding runtime, every buffer against a PROT_NONE page) and the production archive run the same deterministic case list (harness/h_abi.c, section hash) as the model; the outputs are compared line by line.'
     ctx.exhaustive = False
     ctx.assumptions += ["message contents are sampled (6 byte classes), lengths above the dense window are sampled"]
 
@@ -363,12 +387,14 @@ def c11(ctx):
     load_replay(ctx)
     ctx.model_selfcheck()
     N, NZ, NR = ctx.q((14, 9, 3000), (20, 11, 60000))
-    builds = build_set(ctx, ctx.q(["prod", "clang-O2", "gcc-O3+DNDEBUG", "asan-gcc", "msan"], ["prod", "gcc-O0", "gcc-Os", "clang-O2", "clang-O3", "clang-Os", "gcc-O3+DNDEBUG", "clang-O3+DNDEBUG", "gcc-O2+funsigned-char", "asan-gcc", "asan-clang", "msan"]))
+    builds = build_set(ctx, ctx.q(["prod", "clang-O2", "gcc-O3+DNDEBUG+DTINYJAMBU_FORCE_C32", "gcc-O2+D__BIG_ENDIAN__@nobzero", "asan-gcc", "msan"], ["prod", "gcc-O0", "gcc-Os", "clang-O2", "clang-O3", "clang-Os", "gcc-O3+DNDEBUG", "clang-O3+DNDEBUG", "gcc-O2+DTINYJAMBU_FORCE_C32", "clang-O2+DTINYJAMBU_FORCE_C32", "gcc-O2+funsigned-char", "asan-gcc", "asan-clang", "msan"]))
     run_hash(ctx, builds, ["--mode", "stream", "--p1", N, "--p2", NZ, "--p3", NR], 16, "h_hash-s")
+    abi.ilp32_monitor(ctx, ['hash'])
     ctx.rule = ("(a) ALL 2^(n-1) compositions of every length n <= N into update calls (exhaustive), state object pre-filled with junk; "
                 "(b) for n <= NZ the same with a zero-length update (NULL, then non-NULL) at every gap; (c) random chunkings of messages up to 8 KiB "
                 "with sizes from {0..18,30..33,47..49,63..65,100,1000}; (d) random interleaved histories of init/reinit/update/finalize/free/overwrite-with-"
                 "stale-copy over 4 state objects, each judged against a shadow concatenation (one-shot + model). class = (n, composition mask) or history index.")
+    ctx.rule += ' Supplementary ILP32 monitor: the portable sources compiled with gcc/clang -m32 (4-byte size_t, pointers and long; freestanding runtime, every buffer against a PROT_NONE page) and the production archive run the same deterministic case list (harness/h_abi.c, section hash) as the model; the outputs are compared line by line.'
     ctx.exhaustive = False
     ctx.extra_cov["exhaustive_subspace"] = "all compositions of n <= %d (sum 2^(n-1) = %d sequences) on every build" % (N, 2 ** N - 1)
     ctx.assumptions += ["finalized states are never continued without reinit (unspecified)"]
@@ -379,13 +405,15 @@ def c12(ctx):
     load_replay(ctx)
     ctx.model_selfcheck()
     K, NR = ctx.q((200, 150), (400, 20000))
-    builds = build_set(ctx, ctx.q(["prod", "gcc-O2", "clang-O2", "gcc-O3+DNDEBUG", "asan-gcc", "msan"], ["prod"] + MATRIX + MATRIX_X + ["asan-gcc", "asan-clang", "msan"]))
+    builds = build_set(ctx, ctx.q(["prod", "gcc-O2", "clang-O2", "gcc-O3+DNDEBUG+DTINYJAMBU_FORCE_C32", "gcc-O2+D__BIG_ENDIAN__@nobzero", "asan-gcc", "msan"], ["prod"] + MATRIX + MATRIX_X + ["asan-gcc", "asan-clang", "msan"]))
     run_hash(ctx, builds, ["--mode", "hmac", "--p1", K, "--p3", NR], ctx.q(8, 16), "h_hash-m")
     if ctx.thorough:
         run_hash_huge(ctx, builds[0], [1])
+    abi.ilp32_monitor(ctx, ['hmac'])
     ctx.rule = ("every key length 0..K (NULL for 0 in half the cases) x message lengths {0,1,15,16,17,31,32,33,63,64,65,127,128,200} + random "
                 "(key <= 300, message <= 4096); per case: one-shot vs RFC 2104 model, incremental with random chunking and the key at a different "
                 "address for finalize, reinit after an abandoned prefix, reinit after finalize; thorough: one-shot HMAC of 2^32+37 bytes vs the same bytes in updates below 2^32. class = (keylen, mlen, byte class).")
+    ctx.rule += ' Supplementary ILP32 monitor: the portable sources compiled with gcc/clang -m32 (4-byte size_t, pointers and long; freestanding runtime, every buffer against a PROT_NONE page) and the production archive run the same deterministic case list (harness/h_abi.c, section hmac) as the model; the outputs are compared line by line.'
     ctx.exhaustive = False
 
 
@@ -396,14 +424,16 @@ def c13(ctx):
     load_replay(ctx)
     ctx.model_selfcheck()
     NS = ctx.q(160, 3200)
-    builds = build_set(ctx, ctx.q(["prod", "clang-O2", "gcc-O3+DNDEBUG", "asan-gcc", "msan"], ["prod", "gcc-O0", "gcc-O2", "gcc-Os", "clang-O2", "clang-O3", "clang-Os", "gcc-O3+DNDEBUG", "clang-O3+DNDEBUG", "gcc-O2+funsigned-char", "asan-gcc", "asan-clang", "msan"]))
+    builds = build_set(ctx, ctx.q(["prod", "clang-O2", "gcc-O3+DNDEBUG+DTINYJAMBU_FORCE_C32", "gcc-O2+D__BIG_ENDIAN__@nobzero", "asan-gcc", "msan"], ["prod", "gcc-O0", "gcc-O2", "gcc-Os", "clang-O2", "clang-O3", "clang-Os", "gcc-O3+DNDEBUG", "clang-O3+DNDEBUG", "gcc-O2+DTINYJAMBU_FORCE_C32", "clang-O2+DTINYJAMBU_FORCE_C32", "gcc-O2+funsigned-char", "asan-gcc", "asan-clang", "msan"]))
     run_harness_on(ctx, "h_kdf.c", builds, ["--mode", "hkdf", "--p1", NS], 16, timeout=3000)
+    abi.ilp32_monitor(ctx, ['hkdf'])
     ctx.rule = ("one case = one (key, salt, info) stream: lengths from {0(NULL),1,31,32,33,64,65,100}^3 (first 512 indices, enumerated) then random; "
                 "the model's RFC 5869 output (8160 bytes for every 4th stream in quick, every stream in thorough; 700 otherwise) is computed once and the "
                 "library judged on 11-18 one-shot lengths (0..300, 32k-1/32k/32k+1, 8159, 8160), 6 refused lengths {8161, 8192, 10000, 65536, 2^32+5, SIZE_MAX} "
                 "(return -1, canary buffer untouched), empty-salt == 32 zero bytes, and 2-6 random partitions into expand calls with sizes "
                 "{0,1,5,31,32,33,64,100,1000,2500} running past the cap (return codes, bytes up to 8160 == model, every byte past it zero, calls after exhaustion). "
                 "class = (keylen, saltlen, infolen, byte class).")
+    ctx.rule += ' Supplementary ILP32 monitor: the portable sources compiled with gcc/clang -m32 (4-byte size_t, pointers and long; freestanding runtime, every buffer against a PROT_NONE page) and the production archive run the same deterministic case list (harness/h_abi.c, section hkdf) as the model; the outputs are compared line by line.'
     ctx.exhaustive = False
 
 
@@ -412,12 +442,16 @@ def c14(ctx):
     load_replay(ctx)
     ctx.model_selfcheck()
     D, NR = ctx.q((100, 150), (200, 12000))
-    builds = build_set(ctx, ctx.q(["prod", "clang-O2", "gcc-O3+DNDEBUG", "asan-gcc", "msan"], ["prod", "gcc-O0", "gcc-O2", "gcc-Os", "clang-O2", "clang-O3", "clang-Os", "gcc-O3+DNDEBUG", "clang-O3+DNDEBUG", "gcc-O2+funsigned-char", "asan-gcc", "asan-clang", "msan"]))
+    builds = build_set(ctx, ctx.q(["prod", "clang-O2", "gcc-O3+DNDEBUG+DTINYJAMBU_FORCE_C32", "gcc-O2+D__BIG_ENDIAN__@nobzero", "asan-gcc", "msan"], ["prod", "gcc-O0", "gcc-O2", "gcc-Os", "clang-O2", "clang-O3", "clang-Os", "gcc-O3+DNDEBUG", "clang-O3+DNDEBUG", "gcc-O2+DTINYJAMBU_FORCE_C32", "clang-O2+DTINYJAMBU_FORCE_C32", "gcc-O2+funsigned-char", "asan-gcc", "asan-clang", "msan"]))
     run_harness_on(ctx, "h_kdf.c", builds, ["--mode", "pbkdf2", "--p1", D, "--p3", NR], 16, timeout=3000)
+    if ctx.thorough:
+        run_harness_on(ctx, "h_kdf.c", builds[:1], ["--mode", "pbkdf2huge"], 1, timeout=3000, hname="h_kdf-huge")
+    abi.ilp32_monitor(ctx, ['pbkdf2'])
     ctx.rule = ("every outlen 0..D with password lengths {0,1,63,64,65,100,200}, salt lengths 0..40 and counts {0,1,2,3,4,5,10} rotating; "
                 "outputs 8165, 8200, 20000, 8192, 8223 bytes (block index > 255); counts {100,1000,4096} with short outputs; random parameter sets; "
-                "output buffer sized exactly and abutting a guard page (or canaries); relational: count 0 == count 1, shorter output is a prefix. "
+                "output buffer sized exactly and abutting a guard page (or canaries); relational: count 0 == count 1, shorter output is a prefix; thorough: one call producing 2^24+2 blocks (512 MiB), 14 sampled blocks against the model. "
                 "class = (outlen, pwlen, saltlen, count). Oracle: RFC 8018 model over the model HMAC.")
+    ctx.rule += ' Supplementary ILP32 monitor: the portable sources compiled with gcc/clang -m32 (4-byte size_t, pointers and long; freestanding runtime, every buffer against a PROT_NONE page) and the production archive run the same deterministic case list (harness/h_abi.c, section pbkdf2) as the model; the outputs are compared line by line.'
     ctx.exhaustive = False
 
 
@@ -432,7 +466,7 @@ def c15(ctx):
     load_replay(ctx)
     ctx.model_selfcheck()
     NH, NR = ctx.q((2500, 200), (100000, 4000))
-    builds = build_set(ctx, ctx.q(["prod", "clang-O2", "gcc-O3+DNDEBUG", "asan-gcc", "msan"], ["prod", "gcc-O0", "gcc-O2", "gcc-Os", "clang-O2", "clang-O3", "clang-Os", "gcc-O3+DNDEBUG", "clang-O3+DNDEBUG", "gcc-O2+funsigned-char", "asan-gcc", "asan-clang", "msan"]))
+    builds = build_set(ctx, ctx.q(["prod", "clang-O2", "gcc-O3+DNDEBUG+DTINYJAMBU_FORCE_C32", "gcc-O2+D__BIG_ENDIAN__@nobzero", "asan-gcc", "msan"], ["prod", "gcc-O0", "gcc-O2", "gcc-Os", "clang-O2", "clang-O3", "clang-Os", "gcc-O3+DNDEBUG", "clang-O3+DNDEBUG", "gcc-O2+DTINYJAMBU_FORCE_C32", "clang-O2+DTINYJAMBU_FORCE_C32", "gcc-O2+funsigned-char", "asan-gcc", "asan-clang", "msan"]))
     if ctx.thorough:       # full history count on the production and ASan objects, a fifth on the other builds
         run_harness_on(ctx, "h_prng.c", [b for b in builds if b["tag"] in ("prod-cmake-Release", "asan-gcc")], ["--mode", "model", "--p1", NH, "--p2", NR], 16, timeout=3000)
         run_harness_on(ctx, "h_prng.c", [b for b in builds if b["tag"] not in ("prod-cmake-Release", "asan-gcc")], ["--mode", "model", "--p1", NH // 5, "--p2", NR // 5], 16, timeout=3000)
@@ -440,6 +474,7 @@ def c15(ctx):
         run_harness_on(ctx, "h_prng.c", builds, ["--mode", "model", "--p1", NH, "--p2", NR], 16, timeout=3000)
     # 1 MiB streams at the maximum reseed limit (carry out of the low word of V + H + C + counter needs a large counter)
     run_harness_on(ctx, "h_prng.c", builds[:1], ["--mode", "model", "--p1", 0, "--p2", 0, "--p3", ctx.q(32, 480)], 16, timeout=3000, hname="h_prng-long")
+    abi.ilp32_monitor(ctx, ['prng'])
     ctx.rule = ("random histories init_user(custom) . (generate | feed | reseed | set_limit)* of length <= 12 (thorough 40) with generate sizes "
                 "{0,1,31,32,33,64,100,1000,5000}, limits {0,1,31,32,33,64,100,1024,5000,1 MiB,1 MiB+1,SIZE_MAX}, feeds of 0..299 bytes (NULL for 0), "
                 "customisation NULL/0, 5, 64..163, <64 bytes, scripted deliveries (every third history includes short and zero deliveries). A shadow "
@@ -447,6 +482,7 @@ def c15(ctx):
                 "divergence is reported with the op index. Long streams: 32 (thorough 480) streams of 1 MiB at the maximum limit (reseed counter up to 32768), "
                 "every block compared with the shadow. Relational: different initial seeds + identical feed/reseed material => different streams. "
                 "class = history index (all histories distinct by construction).")
+    ctx.rule += ' Supplementary ILP32 monitor: the portable sources compiled with gcc/clang -m32 (4-byte size_t, pointers and long; freestanding runtime, every buffer against a PROT_NONE page) and the production archive run the same deterministic case list (harness/h_abi.c, section prng) as the model; the outputs are compared line by line.'
     ctx.exhaustive = False
     ctx.assumptions += PRNG_ASSUME
 
@@ -456,20 +492,24 @@ def c16(ctx):
     load_replay(ctx)
     L, NR = ctx.q((4, 1500), (6, 40000))
     # the matrix builds are compiled with -DRWEATHER_TINYJAMBU_VERIF (counter hook); the cmake production build is not
-    builds = build_set(ctx, ctx.q(["prod", "gcc-O2", "clang-O2", "gcc-O3+DNDEBUG", "asan-gcc"], ["prod", "gcc-O0", "gcc-O2", "gcc-Os", "clang-O2", "clang-O3", "gcc-O3+DNDEBUG", "clang-O3+DNDEBUG", "asan-gcc", "asan-clang"]))
+    builds = build_set(ctx, ctx.q(["prod", "gcc-O2", "clang-O2", "gcc-O3+DNDEBUG+DTINYJAMBU_FORCE_C32", "gcc-O2+D__BIG_ENDIAN__@nobzero", "asan-gcc"], ["prod", "gcc-O0", "gcc-O2", "gcc-Os", "clang-O2", "clang-O3", "gcc-O3+DNDEBUG", "clang-O3+DNDEBUG", "gcc-O2+DTINYJAMBU_FORCE_C32", "asan-gcc", "asan-clang"]))
     if ctx.thorough:
         # the 1.1 M-sequence enumeration runs on the production object; other builds take length <= 5
         run_harness_on(ctx, "h_prng.c", builds[:1], ["--mode", "budget", "--p1", L, "--p3", NR], 16, timeout=3000, hname="h_prng-b")
         run_harness_on(ctx, "h_prng.c", builds[1:], ["--mode", "budget", "--p1", 5, "--p3", NR // 10], 16, timeout=3000, hname="h_prng-b")
+        # 2^27 - 32 (+-1) feed calls through the API (minutes each): production object and one hooked build
+        run_harness_on(ctx, "h_prng.c", builds[:1] + [b for b in builds if b["tag"] == "gcc-O2"], ["--mode", "realfeeds"], 3, timeout=3000, hname="h_prng-b")
     else:
         run_harness_on(ctx, "h_prng.c", builds[:1], ["--mode", "budget", "--p1", L, "--p3", NR], 16, timeout=3000, hname="h_prng-b")
         run_harness_on(ctx, "h_prng.c", builds[1:], ["--mode", "budget", "--p1", L, "--p3", NR // 5], 16, timeout=3000, hname="h_prng-b")
+    abi.ilp32_monitor(ctx, ['prng'])
     ctx.rule = ("(a) ALL operation sequences of length <= L over the alphabet {gen 1, gen 32, gen 33, gen 100, feed, reseed, limit 0, limit 1, limit 33, "
                 "limit 64} (sum 10^k), each followed by a 1200-byte drain; (b) random runs of 5..44 operations with limits {0,1,31,32,33,64,100,1024,4096,"
                 "65536,3000,1 MiB,1 MiB+1,SIZE_MAX} and generate sizes up to 70000 (every 17th run up to 5 MiB). Monitor: bytes emitted since the last "
                 "entropy request (callback event; its byte offset inside generate is recovered from a sentinel pre-fill) never exceed 32*max(1,ceil(min(limit,"
                 "1 MiB)/32)) for the limit in force, evaluated after every non-empty emitted segment. Twin monitor: a byte copy of the state with one extra "
-                "feed requests entropy no later than the original. (c) with the RWEATHER_TINYJAMBU_VERIF hook (matrix builds): the 32-bit block counter is placed 0..4 below the top of its range - the state reached by ~2^32 feeds, hours through the API - followed by 0..8 feeds x limits {0, 64, 1024, 1 MiB} under the same budget and twin monitors; and at 2^k-2..2^k+2 for k in {8,15,16,20,24,26..31} after 0, 1 or a full limit of blocks generated through the API (the states reached by 2^k feeds: minutes to hours through the API). class = sequence index.")
+                "feed requests entropy no later than the original. (c) with the RWEATHER_TINYJAMBU_VERIF hook (matrix builds): the 32-bit block counter is placed 0..4 below the top of its range - the state reached by ~2^32 feeds, hours through the API - followed by 0..8 feeds x limits {0, 64, 1024, 1 MiB} under the same budget and twin monitors; and at 2^k-2..2^k+2 for k in {8,15,16,20,24,26..31} after 0, 1 or a full limit of blocks generated through the API (the states reached by 2^k feeds: minutes to hours through the API); thorough: 2^27-32 (+-1) feed calls really made through the API after 1024 bytes of output, same monitors, and the hook's reading of the counter compared with what the placed histories assume. class = sequence index.")
+    ctx.rule += ' Supplementary ILP32 monitor: the portable sources compiled with gcc/clang -m32 (4-byte size_t, pointers and long; freestanding runtime, every buffer against a PROT_NONE page) and the production archive run the same deterministic case list (harness/h_abi.c, section prng) as the model; the outputs are compared line by line.'
     ctx.exhaustive = False
     ctx.extra_cov["exhaustive_subspace"] = "all %d-operation-alphabet sequences of length <= %d on the production object" % (10, L)
 
@@ -479,10 +519,11 @@ def c17(ctx):
     load_replay(ctx)
     ctx.model_selfcheck()
     NR = ctx.q(300, 100000)
-    builds = build_set(ctx, ctx.q(["prod", "clang-O2", "gcc-O3+DNDEBUG", "asan-gcc", "msan"], ["prod", "gcc-O0", "gcc-O2", "gcc-Os", "clang-O2", "clang-O3", "clang-Os", "gcc-O3+DNDEBUG", "clang-O3+DNDEBUG", "gcc-O2+funsigned-char", "asan-gcc", "asan-clang", "msan"]))
+    builds = build_set(ctx, ctx.q(["prod", "clang-O2", "gcc-O3+DNDEBUG+DTINYJAMBU_FORCE_C32", "gcc-O2+D__BIG_ENDIAN__@nobzero", "asan-gcc", "msan"], ["prod", "gcc-O0", "gcc-O2", "gcc-Os", "clang-O2", "clang-O3", "clang-Os", "gcc-O3+DNDEBUG", "clang-O3+DNDEBUG", "gcc-O2+DTINYJAMBU_FORCE_C32", "clang-O2+DTINYJAMBU_FORCE_C32", "gcc-O2+funsigned-char", "asan-gcc", "asan-clang", "msan"]))
     run_harness_on(ctx, "h_prng.c", builds, ["--mode", "faults", "--p3", NR], 16, timeout=3000, hname="h_prng-f")
     if not ctx.replay and ctx.stats.get("null_callback_child_runs", 0) < 6:
         ctx.inconclusive.append("NULL-callback child runs did not all execute")
+    abi.ilp32_monitor(ctx, ['prng'])
     ctx.rule = ("fault space = sizes delivered by the entropy source over successive requests. ALL 5^4 = 625 patterns over {0,1,16,31,32} for the first "
                 "four requests (init, explicit reseed, two automatic reseeds) x customisation {NULL/0, 5, 100 bytes}, then random patterns over up to 12 "
                 "requests with deliveries 0..32. Per pattern: init/reseed status non-zero iff exactly 32 bytes delivered; all output equals the shadow "
@@ -490,6 +531,7 @@ def c17(ctx):
                 "different stream. NULL callback: forked child, OS entropy call interposed by a deterministic stub (success and EPERM): same status, "
                 "same 2100-byte stream (crossing two automatic reseeds) and same number of OS calls as tinyjambu_prng_init, equal to the model. "
                 "class = pattern index.")
+    ctx.rule += ' Supplementary ILP32 monitor: the portable sources compiled with gcc/clang -m32 (4-byte size_t, pointers and long; freestanding runtime, every buffer against a PROT_NONE page) and the production archive run the same deterministic case list (harness/h_abi.c, section prng) as the model; the outputs are compared line by line.'
     ctx.exhaustive = True
     ctx.extra_cov["exhaustive_subspace"] = "all 625 delivery patterns over the first four entropy requests x 3 customisations"
     ctx.assumptions += PRNG_ASSUME + ["over-claiming callbacks (return > requested size) violate the callback contract and are not generated"]
@@ -501,21 +543,26 @@ BASE_CFG = ["HAVE_STRINGS_H", "HAVE_EXPLICIT_BZERO", "HAVE_SYS_RANDOM_H", "HAVE_
             "HAVE_UNISTD_H", "HAVE_FCNTL_H"]
 
 
+def trng_variants(ctx):
+    """the four system-entropy configurations of src/random/tinyjambu-trng-dev-random.c that exist on Linux"""
+    pre = os.path.join(ctx.scratch, "no_sys_getrandom.h")
+    with open(pre, "w") as f:
+        f.write("#include <sys/syscall.h>\n#undef SYS_getrandom\n")
+    return [
+        ("getrandom", BASE_CFG + ["HAVE_GETRANDOM", "HAVE_GETENTROPY"], None),
+        ("getentropy", BASE_CFG + ["HAVE_GETENTROPY"], None),
+        ("rawsyscall", BASE_CFG, None),
+        ("devurandom", BASE_CFG, pre),
+    ]
+
+
 @check("C18", "fault_enumeration", floor=2000)
 def c18(ctx):
     import re, subprocess
     load_replay(ctx)
     ctx.model_selfcheck()
     K = ctx.q(8, 12)
-    pre = os.path.join(ctx.scratch, "no_sys_getrandom.h")
-    with open(pre, "w") as f:
-        f.write("#include <sys/syscall.h>\n#undef SYS_getrandom\n")
-    variants = [
-        ("getrandom", BASE_CFG + ["HAVE_GETRANDOM", "HAVE_GETENTROPY"], None),
-        ("getentropy", BASE_CFG + ["HAVE_GETENTROPY"], None),
-        ("rawsyscall", BASE_CFG, None),
-        ("devurandom", BASE_CFG, pre),
-    ]
+    variants = trng_variants(ctx)
     jobs = []
     for name, cfg, pi in variants:
         cfgd = ctx.make_config(name, cfg)
@@ -720,6 +767,7 @@ def c20(ctx):
             ctx.inconclusive.append("LTO positive control (memset wipe of a dying state) was not seen to be removed: the free-function probe is blind here")
         if ctl_seen < 8:
             ctx.inconclusive.append("positive controls (memset / plain loop wipes) were not seen to fail at >= -O1: the probe cannot see a deleted wipe here")
+    abi.ilp32_monitor(ctx, ['clean'])
     ctx.rule = ("(a) 4 state types x random histories (0..8 operations incl. finalize/reinit/exhaustion/reseed, cut at a random point) then the free "
                 "function; all sizeof(public state) bytes read back; object against a guard page or between canaries; (b) tinyjambu_clean for EVERY "
                 "(offset 0..15, size 0..N) + sizes {4095,4096,4097,65535,65536,1 MiB+3} and 2^31+5 (thorough also 2^32-1) on four builds, junk arena compared byte by byte; every third case ends exactly "
@@ -727,6 +775,7 @@ def c20(ctx):
                 "{-O0,-O1,-O2,-O3,-Os,-O2 -flto}; the dead buffer is read at its recorded address; memset/plain-loop controls must be seen to fail; (d) the four free functions with ALL library sources linked -flto ({gcc -O2, gcc -O3, clang -O2} x both configurations): a state object built on a dying stack frame is read back after its free function; a memset control must be seen to be removed. "
                 "Configurations of (a),(b): cmake production library, ASan/UBSan, {gcc, clang} x opt levels x {explicit_bzero, fallback}, and the same in strict ISO C mode (-std=c99); half of the clean calls leave recognisable garbage in the upper half of the 64-bit size register, as a caller passing `unsigned` may. "
                 "class = (type, history index) | (offset, size) | probe configuration.")
+    ctx.rule += ' Supplementary ILP32 monitor: the portable sources compiled with gcc/clang -m32 (4-byte size_t, pointers and long; freestanding runtime, every buffer against a PROT_NONE page) and the production archive run the same deterministic case list (harness/h_abi.c, section clean) as the model; the outputs are compared line by line.'
     ctx.exhaustive = False
     ctx.assumptions += ["copies of secrets in registers or compiler spills outside the wiped buffer are not part of the property",
                         "SecureZeroMemory / memset_s configurations do not exist on this host and are not run"]
@@ -861,15 +910,26 @@ def c19(ctx):
             ctx.inconclusive.append("serial result file missing: %s" % e)
 
     # ---- supplementary census (static, same verdict channel)
+    census = [("prod-static", p["static"])] if not ctx.replay else []
     if not ctx.replay:
-        out = ctx.sh(["nm", "-A", p["static"]]).stdout.decode()
+        # the same census over the other legitimate configurations of the sources (state that exists only there is state all the same)
+        for name, cfg, pi in trng_variants(ctx):
+            census.append(("cfg-" + name, ctx.lib("cen-" + name, "gcc", ["-O2"], cfg=ctx.make_config(name, cfg), pre_include=pi)["static"]))
+        census.append(("cfg-no-explicit_bzero", ctx.lib("cen-fallback", "gcc", ["-O2"], cfg=ctx.make_config("fallback", [m for m in BASE_CFG if m != "HAVE_EXPLICIT_BZERO"] + ["HAVE_GETRANDOM"]))["static"]))
+        for n in ["gcc-O0", "gcc-Os", "clang-O2", "gcc-O3+DNDEBUG", "gcc-O2+std=c99+w"]:
+            census.append((n, build_set(ctx, [n])[0]["lib"]["static"]))
+    ctx.extra_cov["census"] = {}
+    for cname, archive in census:
+        out = ctx.sh(["nm", "-A", archive]).stdout.decode()
         dsyms, alloc = [], []
         for l in out.splitlines():
             parts = l.split()
             if len(parts) >= 2 and parts[-2] == "U" and parts[-1] in ("malloc", "calloc", "realloc", "free", "posix_memalign", "mmap", "sbrk", "aligned_alloc", "strdup"):
                 alloc.append(l)
         # writable sections only (.data.rel.ro* is read-only once relocated and is not state)
-        od = ctx.sh(["objdump", "-t", p["static"]]).stdout.decode()
+        od = ctx.sh(["objdump", "-t", archive]).stdout.decode()
+        ctx.count("census_archives", 1)
+        ctx.count("census_symbols_examined", len(od.splitlines()))
         for l in od.splitlines():
             m = re.match(r"^[0-9a-f]+\s+(.{7})\s+(\S+)\s+[0-9a-f]+\s+(\S+)$", l)
             if not m:
@@ -879,12 +939,12 @@ def c19(ctx):
                 continue            # objects only (not section / file symbols); thread-local objects carry no 'O' flag
             if sec == "*COM*" or re.match(r"^\.(data|bss|tdata|tbss)(\.|$)", sec) and not sec.startswith(".data.rel.ro"):
                 dsyms.append("%s %s" % (sec, name))
-        ctx.extra_cov["census"] = {"writable_data_symbols": dsyms[:10], "allocator_imports": alloc[:10],
+        ctx.extra_cov["census"][cname] = {"writable_data_symbols": dsyms[:10], "allocator_imports": alloc[:10],
                                    "undefined_imports": sorted(set(l.split()[-1] for l in out.splitlines() if len(l.split()) >= 2 and l.split()[-2] == "U" and not l.split()[-1].startswith("tinyjambu")))}
         for l in dsyms:
-            ctx.violation("census-writable-static-data:" + l.split()[-1], {"build": "prod-static-nm", "detail": "object file defines writable static/global data: " + l})
+            ctx.violation("census-writable-static-data:" + l.split()[-1], {"build": cname + "-nm", "detail": "object file defines writable static/global data: " + l})
         for l in alloc:
-            ctx.violation("census-allocator-import:" + l.split()[-1], {"build": "prod-static-nm", "detail": "object file imports an allocator: " + l})
+            ctx.violation("census-allocator-import:" + l.split()[-1], {"build": cname + "-nm", "detail": "object file imports an allocator: " + l})
     ctx.rule = ("table of N operations over 14 operation types (6 AEAD/SIV encrypt+decrypt+reject, hash, HMAC, HKDF one-shot and incremental, PBKDF2, PRNG with "
                 "callback, PRNG with the system source (OS call interposed by a per-thread deterministic stub), clean+free), inputs from (seed, op index), all on "
                 "private stack objects. Monitor 1: serial pass, then T threads each run a random permutation of the whole table (barrier start, yield/nanosleep "
@@ -893,7 +953,7 @@ def c19(ctx):
                 "(type, type) pairs observed in flight simultaneously + snapshot/heap operation types. Monitor 2: hash of libtinyjambu.so's writable mappings "
                 "before/after every operation (LD_BIND_NOW=1). Monitor 3: malloc/calloc/realloc/free/posix_memalign/mmap interposed, any call inside a library call "
                 "is a violation. Monitor 4: the table in 4 different orders in separate processes + 40 operations alone in fresh processes give identical results. "
-                "Census: nm shows no writable data symbols and no allocator imports.")
+                "Census: nm/objdump show no writable data symbols (.data/.bss/.tdata/.tbss/COMMON) and no allocator imports in the production archive and in 10 other configurations of the same sources (the four system-entropy variants, no explicit_bzero, -O0, -Os, clang, NDEBUG, strict C99).")
     ctx.exhaustive = False
     ctx.assumptions += ["ThreadSanitizer only sees interleavings that happened; the snapshot, census and heap monitors do not depend on scheduling",
                         "concurrent use of the same object is outside the property"]
@@ -952,6 +1012,7 @@ def c06(ctx):
     p = ctx.prod()
     exe = ctx.harness("h_mem-prod-vg", "h_mem.c", {"static": p["static"]}, cc="gcc", with_model=False, defs=["VERIF_VALGRIND"])
     run_valgrind(ctx, valgrind_jobs(ctx, exe, "prod-cmake-Release+memcheck", ["--mode", "all", "--p1", ctx.q(5, 24), "--p3", ctx.q(0, 7)], 16))
+    abi.ilp32_monitor(ctx, ['aead', 'siv', 'hash', 'hmac', 'hkdf', 'pbkdf2', 'prng', 'clean'], memcheck=True)
     ctx.rule = ("contract workload over the whole public API: 6 AEAD/SIV variants x (adlen, mlen) in [0..W]^2 (separate / encrypt-in-place / decrypt-in-place, "
                 "accepted and rejected packets), tinyjambu_hash 0..300 (quick 120), incremental hash with chunk schedules, HMAC key lengths 0..200 x 9 message "
                 "lengths one-shot and incremental (reinit), HKDF one-shot 0..200 + every 32k-1/32k/32k+1 up to 8160 + {8159,8160,8161,8192,65536,SIZE_MAX} and "
@@ -961,6 +1022,7 @@ def c06(ctx):
                 "guard page. Each case runs twice with different junk in outputs/states/dead stack (junk differential). Monitors: SIGSEGV classification on production "
                 "objects, ASan+UBSan (gcc, clang), MSan with definedness assertions on every output, memcheck on the production objects. "
                 "class = (api, length tuple, placement rotation).")
+    ctx.rule += ' Supplementary ILP32 monitor: the portable sources compiled -m32 (4-byte size_t/pointers; freestanding runtime) run all eight sections of harness/h_abi.c with every buffer abutting a PROT_NONE page (a fault ends the output early and is reported with the case), and again under valgrind memcheck for x86 (definedness of every branch and address).'
     ctx.exhaustive = False
     ctx.assumptions += ["UBSan nonnull-attribute (and clang pointer-overflow for NULL+0) are disabled: memcpy/explicit_bzero(NULL, .., 0) on permitted NULL/0 arguments touches no byte and is outside the property",
                         "red-zone tools cannot see intra-object overflows inside the library's private structs", "lengths >= 2^32 are run only for AEAD/SIV (C01/C02 thorough), not for hash/KDF/PRNG"]
@@ -1002,6 +1064,13 @@ def c07(ctx):
     p = ctx.prod()
     cfgs = [("prod-cmake-Release(gcc -O3)", {"static": p["static"]}, "gcc")]
     cfgs.append(("gcc-O2", ctx.lib("ct-gcc-O2", "gcc", ["-O2", "-g"]), "gcc"))
+    # the volatile-loop wipe (no explicit_bzero in config.h): it walks over every secret the library erases
+    cfg_fb = ctx.make_config("fallback", [m for m in BASE_CFG if m != "HAVE_EXPLICIT_BZERO"] + ["HAVE_GETRANDOM"])
+    cfgs.append(("gcc-O2-no-explicit_bzero", ctx.lib("ct-gcc-O2-fb", "gcc", ["-O2", "-g"], cfg=cfg_fb), "gcc"))
+    if ctx.thorough:
+        cfgs.append(("clang-O2-no-explicit_bzero", ctx.lib("ct-clang-O2-fb", "clang", ["-O2", "-g", "-gdwarf-4"], cfg=cfg_fb), "clang"))
+        cfgs.append(("gcc-Os", ctx.lib("ct-gcc-Os", "gcc", ["-Os", "-g"]), "gcc"))
+        cfgs.append(("gcc-O3-NDEBUG", ctx.lib("ct-gcc-O3-nd", "gcc", ["-O3", "-g", "-DNDEBUG"]), "gcc"))
     if ctx.thorough or True:
         cfgs.append(("clang-O2", ctx.lib("ct-clang-O2", "clang", ["-O2", "-g", "-gdwarf-4"]), "clang"))
         cfgs.append(("clang-O3", ctx.lib("ct-clang-O3", "clang", ["-O3", "-g", "-gdwarf-4"]), "clang"))
@@ -1084,7 +1153,7 @@ def c07(ctx):
                 "one-shot/incremental; PBKDF2 counts {0,1,2,3,10} x outlen {1,32,33,70}; PRNG init with full/short/zero delivery, generate {1,32,33,100,1100 (automatic "
                 "reseed)}, feed, reseed, set-limit. Secrets (keys, plaintexts, passwords, IKM, entropy bytes as delivered in the callback, fed data) are marked undefined; "
                 "memcheck (--expensive-definedness-checks) reports any branch / address / syscall parameter depending on them; a report with a library frame is a "
-                "violation. Configurations: the cmake Release objects (gcc -O3), gcc -O2, clang -O2, clang -O3. Positive control per configuration. Monitor B: 95 shapes (every 4th in quick) each run under lackey with 3-4 different secret files (random, all-ones, all-zero) with ASLR off; the full instruction-address and data-address trace between two markers must be identical; an early-exit control must differ. class = shape.")
+                "violation. Configurations: the cmake Release objects (gcc -O3), gcc -O2, gcc -O2 without explicit_bzero (volatile-loop wipe), clang -O2, clang -O3 (thorough: + clang without explicit_bzero, -Os, NDEBUG). Positive control per configuration. Monitor B: 95 shapes (every 4th in quick) each run under lackey with 3-4 different secret files (random, all-ones, all-zero) with ASLR off; the full instruction-address and data-address trace between two markers must be identical; an early-exit control must differ. class = shape.")
     ctx.exhaustive = False
     ctx.assumptions += ["valgrind's definedness propagation is trusted as taint tracking (under-taints through some vector idioms are possible)",
                         "instruction-latency channels are invisible; only control flow and addresses are decided, as the property is worded",
